@@ -28,7 +28,7 @@ na = sum(1 for r in rows if r[3] == 'n/a')
 ms = n - c - na
 out = []
 out.append('## 8. Independent mutants (sub-agents given only the property text; /verif/seeded/<id>/mN)\n')
-out.append(f'{n} mutants written by sub-agents that saw the property text and a scratch worktree only (the contract files were\ndeleted from it), each confirmed here: builds, the whole existing suite passes with it (timing-flaky packages re-run\nonce), its demonstration fails with it and passes without. Current state of the checks against them (each applied to a\nscratch worktree of /repo at the commit named in its meta.json): **{c} caught, {ms} missed, {na} no longer applicable**.\nMost of the catches of the second wave came only after the contracts were strengthened where a mutant had been missed\n(lock discipline, provider strictness, freshness of VMs/compilers/arrays, encode-before-status, type-table frame, reload\ncounting, watcher hashing, combinators, built-in oracle, body-binding rule, defaults, byte accounting).\nA third wave (seven mutants, aimed at the type-conformance code and at the bytecode layout side of the compiler after those\nhad been put under contract) was caught entirely; an eighth (operand table rewritten as a switch that lost OpBuildObject)\nfailed a package of the existing suite at confirmation and was not kept - its scenario is the must-fail entry\ncompiler-hasoperand-missing-buildobject. Three of the seven are caught because a contract no longer fits the changed code\n(a loop ordinal or an assertat anchor moved: reported as an engine error, which fails the check like a violation), not by a\nsemantic obligation - the price of keying contracts by loop ordinal and statement text.\nA fourth wave of four, aimed at the glue between the router and the two engines: three caught at once; the fourth (a HEAD\nrequest that matches nothing is re-matched as GET and runs the GET body) was missed until the dispatcher got the obligation\nthat Router.Match is asked about the request's own method and path.\n')
+out.append(f'{n} mutants written by sub-agents that saw the property text and a scratch worktree only (the contract files were\ndeleted from it), each confirmed here: builds, the whole existing suite passes with it (timing-flaky packages re-run\nonce), its demonstration fails with it and passes without. Current state of the checks against them (each applied to a\nscratch worktree of /repo at the commit named in its meta.json): **{c} caught, {ms} missed, {na} no longer applicable**.\nMost of the catches of the second wave came only after the contracts were strengthened where a mutant had been missed\n(lock discipline, provider strictness, freshness of VMs/compilers/arrays, encode-before-status, type-table frame, reload\ncounting, watcher hashing, combinators, built-in oracle, body-binding rule, defaults, byte accounting).\nA third wave (seven mutants, aimed at the type-conformance code and at the bytecode layout side of the compiler after those\nhad been put under contract) was caught entirely; an eighth (operand table rewritten as a switch that lost OpBuildObject)\nfailed a package of the existing suite at confirmation and was not kept - its scenario is the must-fail entry\ncompiler-hasoperand-missing-buildobject. Three of the seven are caught because a contract no longer fits the changed code\n(a loop ordinal or an assertat anchor moved: reported as an engine error, which fails the check like a violation), not by a\nsemantic obligation - the price of keying contracts by loop ordinal and statement text.\nA fourth wave of four, aimed at the glue between the router and the two engines: three caught at once; the fourth (a HEAD\nrequest that matches nothing is re-matched as GET and runs the GET body) was missed until the dispatcher got the obligation\nthat Router.Match is asked about the method and path of the request itself.\n')
 out.append('| Mutant | What it does | Result | First failing obligation |')
 out.append('|--------|--------------|--------|--------------------------|')
 for r in rows:
